@@ -98,6 +98,18 @@ func HarnessC07Concurrent() {
 			for range ch {
 			}
 		})
+		// two concurrent drops of one existing graph: exactly one succeeds
+		_, e0 := st.NewGraph(ctx, "?k")
+		verif.Assume(e0 == nil)
+		var d1, d2 error
+		run(func() { d1 = st.DeleteGraph(ctx, "?k") }, func() { d2 = st.DeleteGraph(ctx, "?k") })
+		verif.Assert((d1 == nil) != (d2 == nil), "C07/exactly-one-concurrent-drop-wins")
+		// a get racing with a drop returns the graph or an error, and the name is gone afterwards
+		_, e0 = st.NewGraph(ctx, "?k")
+		verif.Assume(e0 == nil)
+		run(func() { st.DeleteGraph(ctx, "?k") }, func() { st.Graph(ctx, "?k") })
+		_, ge := st.Graph(ctx, "?k")
+		verif.Assert(ge != nil, "C07/dropped-graph-is-gone")
 	case 4: // two lookups sharing one LookupOptions value with LatestAnchor
 		verif.Class("two-lookups-sharing-one-LookupOptions-with-LatestAnchor")
 		lo := &storage.LookupOptions{LatestAnchor: true}
